@@ -17,6 +17,14 @@ plus the property's own predicate on the real-code result):
              without a domain, Curry inside), built by the constructor or by >> and @
   ccg        ccg.cat2ty and ccg.tree2diagram(tree[, dom=...]) on random categories / derivation
              trees (leaf and inner, dom omitted / empty / atomic / nested), then b2r
+  b2r_deriv  every rule (FA BA FC BC FX BX, right / left Curry) over X, Y, Z drawn INDEPENDENTLY
+             (all different, pairwise equal, all equal, nested, several objects, one empty), the
+             box alone / last box of a derivation from words / mid-derivation (followed by a box,
+             an FA, a BA); oracle = the rule as CCG states it (`stated_rule`) and images computed
+             by the harness (`bty_image`), neither read off the library
+
+Every call on the real code is made through `attempt` / try-except: a library exception becomes a
+failure WITH the input (never an escape that the runner can only report without one).
 
 Optional arguments are drawn at their default (omitted) AND non-default values throughout:
 eager_parse / brute_force `target`, CFG.generate `max_iter` / `remove_duplicates` / `not_twice` /
@@ -400,6 +408,188 @@ def rule_cod(spec):
     return {"fc": [("o", a, d)], "bc": [("u", a, d)], "fx": [("u", c, a)], "bx": [("o", d, b)]}[k]
 
 
+# ---- the rules as the property states them, from the harness's own X, Y, Z
+#
+# Notation.  The library's documented convention is the one `ccg.cat2ty` reads categories with
+# (ccg.py:39-42, result first): `X/Y` ("X over Y": looks for a Y on its right, then is an X) is
+# `X << Y` = Over(X, Y), and `X\Y` ("looks for a Y on its LEFT, then is an X") is `Y >> X` =
+# Under(Y, X) ("Y under X"); biclosed.Ty's docstring (biclosed.py:12-25) gives the grammar
+# `ty >> ty | ty << ty` and Functor's doctest (biclosed.py:252-253) the images
+# F(y >> x << y) = y.r @ x @ y.l.  The rule boxes' own docstrings only name the rule ("Forward
+# crossed composition box"); the rules themselves are the standard CCG combinators:
+#
+#     FA  (>)    X/Y  Y    =>  X          BA  (<)    Y    X\Y  =>  X
+#     FC  (>B)   X/Y  Y/Z  =>  X/Z        BC  (<B)   Y\Z  X\Y  =>  X\Z
+#     FX  (>Bx)  X/Y  Y\Z  =>  X\Z        BX  (<Bx)  Y/Z  X\Y  =>  X/Z
+#     Curry(f : A @ B -> C, n_wires=len(B))             : A -> C/B      (right, the default)
+#     Curry(f : A @ B -> C, n_wires=len(A), left=True)  : B -> C\A = A >> C
+#
+# `stated_rule` writes premises and conclusion out in that notation — nothing here is read off
+# the library or off rule_dom / rule_cod above (which serve the model's requests).
+
+def _fw(x, y):
+    """X/Y = x << y."""
+    return [("o", list(x), list(y))]
+
+
+def _bw(x, y):
+    """X\\Y = y >> x."""
+    return [("u", list(y), list(x))]
+
+
+STATED = ["fa", "ba", "fc", "bc", "fx", "bx", "curry_r", "curry_l"]
+
+
+def stated_rule(kind, X, Y, Z):
+    """(box spec, premises, conclusion) of rule `kind` over the harness's X, Y, Z; premises is
+    the list of the categories the rule consumes, left to right."""
+    if kind == "fa":
+        return ("fa", X, Y), [_fw(X, Y), list(Y)], list(X)
+    if kind == "ba":
+        return ("ba", Y, X), [list(Y), _bw(X, Y)], list(X)
+    if kind == "fc":
+        return ("fc", X, Y, Y, Z), [_fw(X, Y), _fw(Y, Z)], _fw(X, Z)
+    if kind == "bc":
+        return ("bc", Z, Y, Y, X), [_bw(Y, Z), _bw(X, Y)], _bw(X, Z)
+    if kind == "fx":
+        return ("fx", X, Y, Z, Y), [_fw(X, Y), _bw(Y, Z)], _bw(X, Z)
+    if kind == "bx":
+        return ("bx", Y, Z, Y, X), [_fw(Y, Z), _bw(X, Y)], _fw(X, Z)
+    inner = dict(dom=list(X) + list(Y), steps=[(0, ("gen", "f", list(X) + list(Y), list(Z)))],
+                 cod=list(Z))
+    if kind == "curry_r":       # f : X @ Y -> Z   |->   X -> Z/Y
+        return ("curry", inner, len(Y), False), [list(X)], _fw(Z, Y)
+    if kind == "curry_l":       # f : X @ Y -> Z   |->   Y -> Z\X
+        return ("curry", inner, len(X), True), [list(Y)], _bw(Z, X)
+    raise ValueError(kind)
+
+
+def xyz_of(spec):
+    """The X, Y, Z a composable rule spec (kind, sides…) instantiates its rule with, or None
+    (a spec whose premises do not fit the rule: the constructors refuse those)."""
+    k = spec[0]
+    if k == "fa":
+        return spec[1], spec[2], []
+    if k == "ba":
+        return spec[2], spec[1], []
+    if k not in ("fc", "bc", "fx", "bx"):
+        return None
+    a, b, c, d = spec[1:]
+    if k == "fc":
+        return (a, b, d) if b == c else None
+    if k == "bc":
+        return (d, b, a) if b == c else None
+    if k == "fx":
+        return (a, b, c) if b == d else None
+    return (d, a, b) if a == c else None
+
+
+def stated_types(spec):
+    """(dom, cod) the rule's statement gives a composable rule spec, or None."""
+    xyz = xyz_of(spec)
+    if xyz is None:
+        return None
+    box, prem, concl = stated_rule(spec[0], *xyz)
+    assert box == tuple(spec), (box, spec)
+    return [o for p in prem for o in p], concl
+
+
+def bty_image(t):
+    """The rigid type a biclosed type denotes, as a list of (name, winding number), written from
+    the definition of the translation (`x << y` |-> x @ y.l, `y >> x` |-> y.r @ x, atoms to
+    themselves, tensor to tensor; `.l` / `.r` reverse the objects and lower / raise each winding
+    number by one) — without calling the library."""
+    out = []
+    for o in t:
+        if o[0] == "a":
+            out.append((o[1], 0))
+        elif o[0] == "o":
+            out += bty_image(o[1]) + [(n, z - 1) for n, z in reversed(bty_image(o[2]))]
+        else:
+            out += [(n, z + 1) for n, z in reversed(bty_image(o[1]))] + bty_image(o[2])
+    return out
+
+
+XYZ_SHAPES = ["distinct_atoms", "x_eq_z", "x_eq_y", "y_eq_z", "all_equal", "nested",
+              "nested_x_eq_z", "multi_object", "mixed", "one_empty"]
+
+
+def gen_xyz(r, shape, depth):
+    """X, Y, Z drawn independently of each other (and of any rule), in the named relation."""
+    a = r.sample(ATOMS, 3)
+    at = lambda n: [("a", n)]
+    nested = lambda: gen_bty(r, r.randint(1, max(1, depth)), lens=(1,))
+    multi = lambda: gen_bty(r, r.randint(0, 1), lens=(2, 2, 3))
+    if shape == "distinct_atoms":
+        return at(a[0]), at(a[1]), at(a[2])
+    if shape == "x_eq_z":
+        return at(a[0]), at(a[1]), at(a[0])
+    if shape == "x_eq_y":
+        return at(a[0]), at(a[0]), at(a[2])
+    if shape == "y_eq_z":
+        return at(a[0]), at(a[1]), at(a[1])
+    if shape == "all_equal":
+        return at(a[0]), at(a[0]), at(a[0])
+    if shape == "nested":
+        return nested(), nested(), nested()
+    if shape == "nested_x_eq_z":
+        x = nested()
+        return x, nested(), list(x)
+    if shape == "multi_object":
+        return multi(), multi(), multi()
+    if shape == "mixed":
+        xyz = [at(a[0]), nested(), multi()]
+        r.shuffle(xyz)
+        return tuple(xyz)
+    xyz = [gen_bty(r, r.randint(0, 1)) for _ in range(3)]       # "one_empty"
+    xyz[r.randrange(3)] = []
+    return tuple(xyz)
+
+
+DERIV_POSITIONS = ["alone", "last", "last_tensored", "mid_box", "mid_fa", "mid_ba"]
+
+
+def stated_derivation(r, kind, X, Y, Z, pos):
+    """A derivation spec around the rule box of `stated_rule(kind, X, Y, Z)`, its types written
+    from the rule's statement:
+      alone          the box by itself
+      last           one word per premise, then the box: closed, codomain = the conclusion
+      last_tensored  the same between two further words that stay untouched (offset > 0)
+      mid_box        ... then a generic box consuming the conclusion T : T -> U
+      mid_fa         a word U/T to the left, the derivation of T, then FA:  U/T  T  =>  U
+      mid_ba         the derivation of T, a word U\\T to its right, then BA:  T  U\\T  =>  U
+    Returns (bd, box spec, premises, conclusion)."""
+    box, prem, concl = stated_rule(kind, X, Y, Z)
+    dom = [o for p in prem for o in p]
+    if pos == "alone":
+        return dict(dom=dom, steps=[(0, box)], cod=list(concl)), box, prem, concl
+    U = gen_bty(r, r.randint(0, 1), lens=(1, 1, 2))
+    left = gen_bty(r, 1, lens=(1,)) if pos == "last_tensored" else \
+        _fw(U, concl) if pos == "mid_fa" else []
+    right = gen_bty(r, 1, lens=(1, 2)) if pos == "last_tensored" else \
+        _bw(U, concl) if pos == "mid_ba" else []
+    steps, scan = [], []
+    word = lambda k, cod: ("word", "w%d" % k, [], list(cod),
+                           dict(cls=r.choice(["ccg", "ccg", "cfg", "ccg_sub"]),
+                                dom_form=r.choice(["omit", "none", "empty"])))
+    for k, cod in enumerate([left] + prem + [right]):
+        if cod:                              # an empty category needs no word
+            steps.append((len(scan), word(k, cod)))
+            scan = scan + list(cod)
+    steps.append((len(left), box))
+    scan = left + list(concl) + right
+    if pos == "mid_box":
+        steps.append((0, gen_generic(r, "g", concl, U, word_share=0.3)))
+        scan = list(U)
+    elif pos == "mid_fa":
+        steps.append((0, ("fa", U, list(concl))))
+        scan = list(U)
+    elif pos == "mid_ba":
+        steps.append((0, ("ba", list(concl), U)))
+        scan = list(U)
+    return dict(dom=[], steps=steps, cod=scan), box, prem, concl
+
+
 # biclosed diagrams: dict(dom, steps=[(off, box)], cod) with box a rule spec or
 # ("curry", inner_bd, n, left)
 
@@ -565,6 +755,36 @@ def b2r_oracle(out, src):
     return boxes_preserved(img, src)
 
 
+def stated_oracle(out, src, dom_spec, cod_spec):
+    """The property on a diagram whose types the harness knows from the rules' statements
+    (`dom_spec`, `cod_spec`: harness data, not read off `src`): `src` has exactly these types,
+    its translation is returned, well-typed, and goes from the image of the stated domain to
+    the image of the stated codomain — images computed by `bty_image`, not by the library — and
+    (b2r_oracle) agrees with the library's own F(src.dom), F(src.cod).  None or a description."""
+    for side, spec in (("dom", dom_spec), ("cod", cod_spec)):
+        try:
+            got = ser_bty(getattr(src, side))
+        except Exception as exc:
+            return "source %s unreadable: %s" % (side, type(exc).__name__)
+        if got != tok_bty(spec):
+            also = b2r_oracle(out, src)
+            return "source %s is not what the rule says: %s, stated %s%s" % (
+                side, getattr(src, side), real_bty(spec),
+                "; and the translation is not type-preserving: " + also if also else "")
+    if out[0] == "err":
+        return "biclosed2rigid raises %s: %s" % (type(out[1]).__name__, str(out[1])[:80])
+    img = out[1]
+    why = wf_failure(img)
+    if why:
+        return "image ill-typed: " + why
+    for side, spec in (("dom", dom_spec), ("cod", cod_spec)):
+        got, want = [tuple(k) for k in ty_key(getattr(img, side))], bty_image(spec)
+        if got != want:
+            return "image %s != image of the stated %s: %s, stated %s |-> %s" % (
+                side, side, getattr(img, side), real_bty(spec), want)
+    return b2r_oracle(out, src)
+
+
 def source_generics(d, acc=None):
     """The words / generic boxes of a biclosed diagram in order (those of curried diagrams
     included, the rule boxes left out)."""
@@ -606,7 +826,11 @@ def root_cause(box):
             rc = root_cause(b)
             if rc:
                 return rc
-    rbox = real_box(box)
+    built = attempt(lambda: real_box(box))
+    if built[0] == "err":
+        return ("b2r:%s:construction_raises" % box[0],
+                "building the box raises %s: %s" % (type(built[1]).__name__, str(built[1])[:120]))
+    rbox = built[1]
     why = b2r_oracle(attempt(lambda: F(rbox)), rbox)
     if why is None:
         return None
@@ -806,8 +1030,12 @@ def run(tier, seed, replay=None):
         "diagrams mixing rules, Curry, boxes and words (with and without dom), built by the "
         "constructor or with >> and @. ccg: derivation trees of depth <= %d over fa/ba/fc/other, "
         "tree2diagram's optional dom omitted / empty / atom / nested (leaf and inner trees); "
-        "non-trivial = >= 2 rule nodes. Optional arguments of every front-end are drawn at default "
-        "(omitted) and non-default values. Distinct by request token string."
+        "non-trivial = >= 2 rule nodes. b2r_deriv: 8 rules x 10 relations between independently drawn "
+        "X, Y, Z (distinct atoms, X=Z, X=Y, Y=Z, all equal, nested, nested with X=Z, several objects, "
+        "mixed, one empty) x 6 positions (alone, last, last between untouched words, then a box / FA / "
+        "BA), each box checked against the rule as CCG states it and against harness-computed images; "
+        "non-trivial = X != Z and a side with >= 2 image wires. Optional arguments of every front-end "
+        "are drawn at default (omitted) and non-default values. Distinct by request token string."
         % (6 if thorough else 4, 5 if thorough else 3))
     rep.assumptions = [
         "atom / word / production names are generator-chosen identifiers (their Python repr is "
@@ -834,6 +1062,7 @@ def run(tier, seed, replay=None):
         stream_ccg(rep, drv, random.Random(rng.getrandbits(64)), 400 * scale, thorough)
         # drawn last: the streams above keep the cases they had before this one existed
         stream_box(rep, drv, random.Random(rng.getrandbits(64)), 400 * scale, depth)
+        stream_deriv(rep, drv, random.Random(rng.getrandbits(64)), 4 if thorough else 1, depth)
     finally:
         drv.close()
     return rep.finish()
@@ -1100,6 +1329,20 @@ def stream_rule(rep, drv, rng, n_per_rule, depth):
             rsig = "err " + err_class(exc)
         compare(rep, "rule_sig", dict(rule=c, static=static), sl, rsig, msig)
         rep.count("rule:built_by:" + ("static_constructor" if static else "class"))
+        stated = stated_types(c)
+        if stated and box is None:
+            rep.fail("rule:%s:refused_although_composable" % kind, dict(rule=c, static=static),
+                     "the constructor refuses premises that fit the rule: " + rsig)
+        elif stated and rsig != "ok %s %s" % (tok_bty(stated[0]), tok_bty(stated[1])):
+            side = "dom" if ser_bty(box.dom) != tok_bty(stated[0]) else "cod"
+            rep.fail("rule:%s:%s_is_not_what_the_rule_says" % (kind, side),
+                     dict(rule=c, static=static),
+                     "%r : %s -> %s, the rule says %s -> %s" % (
+                         box, box.dom, box.cod, real_bty(stated[0]), real_bty(stated[1])))
+        if stated:
+            X, _, Z = xyz_of(c)
+            rep.count("rule:%s:stated:%s" % (kind, "two_sided" if kind in ("fa", "ba") else
+                                             "X=Z" if X == Z else "X!=Z"))
         sides = [bty_img_len(t) for t in c[1:]]
         nontrivial = max(sides) >= 2
         rep.count("rule:%s:%s" % (kind, "refused" if box is None else
@@ -1146,10 +1389,23 @@ def stream_curry(rep, drv, rng, n, depth):
     img_lines = ["b2r_curry %s %d %d" % (tok_bd(i), nw, 1 if l else 0) for i, nw, l in cases]
     sigs, imgs = ask_all(drv, sig_lines), ask_all(drv, img_lines)
     for (inner, nw, left), sl, il, msig, mimg in zip(cases, sig_lines, img_lines, sigs, imgs):
-        rinner = real_bd(inner, ops=rng.random() < 0.3)
+        ops = rng.random() < 0.3
         form = rng.choice(["class", "static", "defaults"])
-        box = real_curry(rinner, nw, left, form)
+        built = attempt(lambda: real_curry(real_bd(inner, ops=ops), nw, left, form))
         rep.count("curry:built_by:" + form)
+        if built[0] == "err":
+            # the inner diagram is well-typed by construction of the spec, and Curry's constructor
+            # only slices: a refusal means some box inside does not have the type its rule says
+            rc = None
+            for _, b in inner["steps"]:
+                rc = rc or root_cause(b)
+            rep.fail(rc[0] if rc else "b2r:curry:construction_raises",
+                     dict(inner=inner, n_wires=nw, left=left, ops=ops),
+                     "building Curry(diagram, %d, %s) raises %s: %s%s" % (
+                         nw, left, type(built[1]).__name__, str(built[1])[:120],
+                         "; " + rc[1] if rc else ""))
+            continue
+        box = built[1]
         for tag in bd_tags(inner):
             rep.count("curry:inner:" + tag)
         rsig = "ok %s %s" % (ser_bty(box.dom), ser_bty(box.cod))
@@ -1158,7 +1414,8 @@ def stream_curry(rep, drv, rng, n, depth):
         real = ser_outcome(out)
         compare(rep, "b2r_curry", dict(inner=inner, n=nw, left=left), il, real, mimg)
         wires = box.cod.left if left else box.cod.right
-        nimg = len(F(wires))
+        nimg = attempt(lambda: len(F(wires)))
+        nimg = nimg[1] if nimg[0] == "ok" else -1
         rep.count("curry:%s:n_wires_%s:image_%s" % (
             "left" if left else "right",
             "neg" if nw < 0 else "0" if nw == 0 else "in_range" if nw <= len(inner["dom"]) else "over",
@@ -1261,6 +1518,89 @@ def stream_box(rep, drv, rng, n, depth):
             rep.sample(dict(stream="b2r_box", request=line[:300], answer=real[:160]), cap=3)
 
 
+# ---- every rule over independent X, Y, Z: alone, last, mid-derivation
+
+def stream_deriv(rep, drv, rng, reps, depth):
+    """Every rule (FA, BA, FC, BC, FX, BX, right and left Curry) instantiated with X, Y, Z the
+    harness draws independently (all different, pairwise equal, all equal, nested slash types,
+    several objects, an empty one), the box alone, as the last box of a derivation from words,
+    and in the middle of one that goes on (a box, a forward, a backward application consuming
+    the rule's conclusion).  The oracle is `stated_oracle`: every type is the one the rule's
+    statement gives, and the translation goes between their independently computed images."""
+    from discopy.biclosed import biclosed2rigid as F
+    cases = []
+    for kind in STATED:
+        for shape in XYZ_SHAPES:
+            for pos in DERIV_POSITIONS:
+                for _ in range(reps):
+                    for _try in range(200):
+                        X, Y, Z = gen_xyz(rng, shape, min(depth, 2))
+                        if kind == "curry_r" and not Y or kind == "curry_l" and not X:
+                            continue        # n_wires = 0 is not "curry no wire" (stream_curry)
+                        if sum(bty_img_len(t) for t in (X, Y, Z)) <= 9:
+                            break
+                    else:
+                        continue
+                    bd, box, prem, concl = stated_derivation(rng, kind, X, Y, Z, pos)
+                    cases.append((kind, shape, pos, (X, Y, Z), bd, box, (prem, concl),
+                                  rng.randrange(6), rng.random() < 0.5))
+    sig_lines = ["bd_sig " + tok_bd(c[4]) for c in cases]
+    img_lines = ["b2r " + tok_bd(c[4]) for c in cases]
+    sigs, imgs = ask_all(drv, sig_lines), ask_all(drv, img_lines)
+    for (kind, shape, pos, xyz, bd, box, (prem, concl), variant, ops), sl, il, msig, mimg in zip(
+            cases, sig_lines, img_lines, sigs, imgs):
+        X, Y, Z = xyz
+        case = dict(rule=kind, X=X, Y=Y, Z=Z, position=pos, diagram=bd,
+                    built_by=("operators" if ops else "constructor") if pos != "alone" else
+                    "box variant %d" % variant,
+                    reads="X=%s Y=%s Z=%s" % tuple(attempt(lambda t=t: str(real_bty(t)))[1]
+                                                   for t in xyz))
+        rep.count("deriv:%s:%s" % (kind, pos))
+        rep.count("deriv:%s:xyz:%s" % (kind, shape))
+        rep.count("deriv:xyz:%s" % ("X=Z" if X == Z else "X!=Z"))
+        # the rule box itself has the type its rule says
+        rbox = attempt(lambda: real_box(box, variant))
+        box_dom = [o for p in prem for o in p]       # the premises, left to right
+        if rbox[0] == "err":
+            rep.fail("deriv:%s:box_refused" % kind, case,
+                     "the rule box is refused although its premises fit the rule: %s: %s" % (
+                         type(rbox[1]).__name__, str(rbox[1])[:120]))
+            rep.case(il, False)
+            continue
+        for side, spec in (("dom", box_dom), ("cod", concl)):
+            if ser_bty(getattr(rbox[1], side)) != tok_bty(spec):
+                rep.fail("deriv:%s:box_%s_is_not_what_the_rule_says" % (kind, side), case,
+                         "%r : %s -> %s, the rule says %s -> %s" % (
+                             rbox[1], rbox[1].dom, rbox[1].cod, real_bty(box_dom), real_bty(concl)))
+                break
+        # the derivation around it
+        built = rbox if pos == "alone" else attempt(lambda: real_bd(bd, ops=ops))
+        if built[0] == "err":
+            compare(rep, "bd_sig", case, sl, "err " + err_class(built[1]), msig)
+            rep.fail("deriv:%s:%s:construction_raises" % (kind, "mid" if pos.startswith("mid")
+                                                           else pos), case,
+                     "building the derivation (types as the rules state them) raises %s: %s" % (
+                         type(built[1]).__name__, str(built[1])[:160]))
+            rep.case(il, False)
+            continue
+        src = built[1]
+        rsig = attempt(lambda: "ok %s %s" % (ser_bty(src.dom), ser_bty(src.cod)))
+        compare(rep, "bd_sig", case, sl, rsig[1] if rsig[0] == "ok" else "err " + err_class(rsig[1]),
+                msig)
+        out = attempt(lambda: F(src))
+        real = ser_outcome(out)
+        compare(rep, "b2r_deriv", case, il, real, mimg)
+        nontrivial = X != Z and max(bty_img_len(t) for t in xyz) >= 2
+        rep.case(il, nontrivial)
+        why = stated_oracle(out, src, bd["dom"], bd["cod"])
+        if why:
+            rep.fail("deriv:%s:%s:%s" % (kind, "mid" if pos.startswith("mid") else pos,
+                                         why.split(":")[0][:48]), case, why)
+        elif nontrivial and kind in ("fx", "bx"):
+            rep.sample(dict(stream="b2r_deriv", rule=kind, position=pos, request=il[:300],
+                            answer=real[:160]), cap=6)
+
+
 def tok_bty_ser(t):
     """The tokens `ser_bty` gives the real type of a spec."""
     return tok_bty(t)
@@ -1279,8 +1619,14 @@ def stream_bd(rep, drv, rng, n, depth):
         try:
             d = real_bd(c, ops=ops)
         except Exception as exc:
-            rep.fail("b2r:diagram:construction_raises", dict(diagram=c, ops=ops),
-                     "building the diagram raises %s: %s" % (type(exc).__name__, str(exc)[:80]))
+            # the spec is well-typed by construction: a refusal means a box inside does not have
+            # the type its rule says — name the first such box
+            rc = None
+            for _, b in c["steps"]:
+                rc = rc or root_cause(b)
+            rep.fail(rc[0] if rc else "b2r:diagram:construction_raises", dict(diagram=c, ops=ops),
+                     "building the diagram raises %s: %s%s" % (
+                         type(exc).__name__, str(exc)[:80], "; " + rc[1] if rc else ""))
             continue
         rsig = "ok %s %s" % (ser_bty(d.dom), ser_bty(d.cod))
         compare(rep, "bd_sig", c, sl, rsig, msig)
